@@ -27,7 +27,14 @@ def run_one(pid, name, edits, tier="quick", keep=False, extra_env=None):
     try:
         dst = os.path.join(tmp, "python")
         shutil.copytree(SRC, dst, ignore=shutil.ignore_patterns("__pycache__", "*.pyc"))
-        for rel, old, new in edits:
+        for e in edits:
+            if e[0] == "revert":
+                d = subprocess.run(["git", "-C", "/repo", "diff", e[1] + "~1", e[1], "--", "src/python"], capture_output=True, text=True).stdout
+                pr = subprocess.run(["patch", "-R", "-p3", "-s", "-d", dst], input=d, capture_output=True, text=True)
+                if pr.returncode != 0:
+                    return "BADMUTANT(revert %s: %s)" % (e[1], pr.stdout[-200:]), 0.0
+                continue
+            rel, old, new = e
             p = os.path.join(dst, rel)
             s = open(p).read()
             if s.count(old) != 1:
